@@ -9,6 +9,9 @@ R19.3 every atomic_write(...) is released on all paths, exceptional ones include
       __exit__ commits only on success and removes the temp dir on failure.
 R19.4 writer functions never open the destination for writing directly.
 R19.5 apply_to skips inputs already in the output store before scheduling.
+R19.7 no atomic_write call site selects the in-place zip commit.
+R19.8 a write is committed once: explicit closes of the with-bound object require an idempotent atomic_write.close().
+R19.9 a failed open of the temporary file removes the temp dir.
 """
 
 from __future__ import annotations
